@@ -230,6 +230,21 @@ func runC04(c *harness.Ctx, idx int) {
 	if ev.panicked() || ev.err != nil || ev.n != n {
 		c.Violation("byvalue", "C04/encode-byvalue/"+sig, "EncodeObject(value): n=%d err=%v panic=%v, want %d", ev.n, ev.err, ev.pv, n)
 	}
+	// a typed nil pointer is an accepted argument as well (it is measured as the empty struct):
+	// whatever EncodedSize says about it, EncodeObject must honour
+	np := reflect.Zero(reflect.PtrTo(s.Go)).Interface()
+	if zs := fSize(np); zs.panicked() {
+		c.Violation("size-panic", "C04/size-panic-nilptr/"+panicSig(zs), "EncodedSize((*T)(nil)) panicked: %v [%s]", zs.pv, shortStack(zs.stack))
+	} else {
+		zb := mon.NewCanary(zs.n, zs.n+16, 0x3C)
+		ze := fEncode(zb.Buf, np)
+		if ze.panicked() || ze.err != nil || ze.n != zs.n {
+			c.Violation("nilptr", "C04/nil-pointer-size-vs-encode", "EncodedSize((*T)(nil))=%d but EncodeObject with a buffer of that length: n=%d err=%v panic=%v", zs.n, ze.n, ze.err, ze.pv)
+		} else if off, ok := zb.Check(ze.n); !ok {
+			c.Violation("canary", "C04/write-outside/"+sig, "nil pointer: byte at offset %d outside buf[:%d] was modified", off, ze.n)
+		}
+		c.Count("nil_pointer_calls", 1)
+	}
 	// short buffers
 	var lens []int
 	if n <= 512 {
